@@ -401,8 +401,29 @@ def long_vectors(ctx, exe, state):
         t = tk(val)
         sweep.update([(base["-f"], t), (base["--num"], base["7"], base["-bf"], t), (base["-t"], t, base["x"])])   # value in the next word
         contexts(tk("--agony=" + "o" * m))                                          # X: over-long non-boolean word
+    # ---- value corners: the value of EVERY value-taking spelling (-xV, -x V, --long=V, --long V, a bundle ending in -xV,
+    # for string, list and abstract options) ranges over the special characters of every OTHER spelling: '=', a '-'
+    # inside, a leading '-' / "--" (X after a next-word spelling, 8a; strict after '='), an embedded blank, the empty value;
+    # and '=' inside a bundle of flags.  Same generated module, same actions, TLC computes the expectation.
+    nsweep = len(sweep)
+    specials = ["key=val", "=", "a=b=c", "x=", "=x", "a b", "a-b", "-", "--", "-x", "--x", ""]
+    for v in specials:
+        vt = tk(v) if v not in base else base[v]
+        for opener in ("-f", "--file", "-bf", "-t", "--theme", "-e", "--exec", "--agony", "-a"):
+            o = base[opener] if opener in base else tk(opener)
+            base[opener] = o
+            sweep.update([(o, vt), (o, vt, base["x"]), (base["x"], o, vt)])           # -x V / --long V
+        for attach in ("-f%s", "-bf%s", "--file=%s", "-t%s", "--theme=%s", "-e%s", "--exec=%s", "--agony=%s", "-n%s", "--num=%s"):
+            if v == "" and "=" not in attach:
+                continue                                                              # -x with nothing attached is the plain option
+            t = tk(attach % v)
+            sweep.update([(t,), (t, base["x"]), (base["x"], t, base["7"])])           # -xV / --long=V
+    for bundle in ("-ab=on", "-a=b", "-ab=", "-vb=0", "-=", "-b=-a"):
+        t = tk(bundle)
+        sweep.update([(t,), (t, base["on"]), (base["x"], t)])
+    ctx.add("value_corner_vectors", len(sweep) - nsweep)
     run_vectors(sweep, "sizes")
-    ctx.add("size_sweep_vectors", len(sweep))
+    ctx.add("size_sweep_vectors", nsweep)
     ctx.add("size_sweep_tokens", len(toktext) - nbase)
     # failing sampled vectors are reduced the same way as the others: their sub-vectors are explored too (TLC computes
     # the expectation of each), round by round, until every failing vector has all its one-word deletions explored
